@@ -154,7 +154,7 @@ func checkC12(c C12Case, env *Env) *Violation {
 			if o.Name.Off == o.Name.End || dcName(o.Name.Text) || (o.Decl != nil && o.Decl.Kind == reflua.DSelf) {
 				continue
 			}
-			if gate("c05-bracket-quote") && kfBracketQuote(f.Text, o.Name.Off) {
+			if (gate("c05-bracket-quote") && kfBracketQuote(f.Text, o.Name.Off)) || (gate("c05-glued-bracket") && kfGluedBracket(f.Text, o.Name.Off)) {
 				excludedIn(env)
 				continue
 			}
@@ -353,7 +353,7 @@ func kfBracketQuoteAt(ws *Workspace, l Loc) bool {
 	for _, f := range ws.Files {
 		if f.Path == l.File {
 			if off, ok := refmodelOffset(f.Text, l.SL, l.SC); ok {
-				return kfBracketQuote(f.Text, off)
+				return kfBracketQuote(f.Text, off) || (gate("c05-glued-bracket") && kfGluedBracket(f.Text, off))
 			}
 		}
 	}
